@@ -110,3 +110,10 @@ add(
     "Trusts numpy indexing/transposition and vf/lang.py for lazy terms; align is exercised with permutations of all names on non-Tensor terms (as documented).",
     "DESIGN.md section 3 C19",
 )
+add(
+    "C16",
+    "exhaustive enumeration over a pool of ~150 parametric types (order axioms, differential against an independent structural model of the type language, instance membership) + enumerated/synthesised dispatch queries for every registered signature + generated register/dispatch histories on fresh registries",
+    "G2 checks reflexivity, transitivity (all triples in the thorough tier), agreement with a 60-line structural model on all pairs, deep_isinstance vs the relation, and membership of every sample value in each one-step generalisation of its deep type. G1 checks for every dispatcher of the 8 dispatched interpretations and adjoint_ops that the chosen rule belongs to a matching pattern not strictly refined by a different rule's matching pattern, and that it is stable under cache clearing, reorder(), shuffled registration order and register/dispatch histories through origin and subscripted keys.",
+    "Trusts the structural model (vf/props/c16.py model_sub) and multipledispatch's own ordering only through its observable choices.",
+    "DESIGN.md section 3 C16",
+)
